@@ -69,12 +69,12 @@ def write_ninja(flavour):
 def generate():
     """Regenerate everything that is derived from /repo's sources (Lean data + harness includes)."""
     import sys
-    sys.path.insert(0, ROOT)
-    from translators import syntaxkind
+    if ROOT not in sys.path:
+        sys.path.insert(0, ROOT)
+    import translators
     from .common import LEAN
     with Lock("gen"):
-        syntaxkind.main(REPO, os.path.join(LEAN, "PsycheModel", "Generated", "SyntaxKind.lean"),
-                        os.path.join(BUILD, "gen", "kindnames.inc"))
+        return translators.run_all(REPO, LEAN, os.path.join(BUILD, "gen"))
 
 
 def build(flavour="ndebug", targets=("psyh",)):
